@@ -25,11 +25,15 @@ func c09Part(t *rapid.T, last bool, typ string) string {
 	for i := 0; i < n; i++ {
 		sb.WriteString(rapid.SampledFrom(c09Chunks).Draw(t, "chunk"))
 		// a line break written inside the literal (followed by indentation)
-		if i < n-1 && rapid.IntRange(0, 9).Draw(t, "innernl") == 0 {
+		// (also as the very last thing before the closing quote: it then leaves one trailing space)
+		if rapid.IntRange(0, 9).Draw(t, "innernl") == 0 {
 			sb.WriteString(rapid.SampledFrom([]string{"\n", "\n\t\t", "\r\n  ", " \n "}).Draw(t, "nlform"))
 		}
 	}
 	s := sb.String()
+	if n == 0 && rapid.IntRange(0, 11).Draw(t, "onlynl") == 0 {
+		s = "\n\t"
+	}
 	if last {
 		switch rapid.IntRange(0, 5).Draw(t, "tail") {
 		case 0:
